@@ -338,6 +338,7 @@ type Runner struct {
 	// native interpreter at all (only then responses carry "fired")
 	fired      [2]map[string]bool
 	nativeSeen bool
+	regs       map[string][]*Event // registration events per client, in order (for NativeSwap)
 }
 
 func firedList(m map[string]bool) []string {
@@ -353,8 +354,27 @@ func firedList(m map[string]bool) []string {
 // sets one attribute (updaters), so that the judge can tell which registration decided an operation.
 func (r *Runner) register(p Prim, side int, e *Event) *Resp {
 	r.nativeSeen = true
+	if side == 0 {
+		r.regs[e.C] = append(r.regs[e.C], e)
+	}
+	return r.registerOn(p.Native(e.C), side, e)
+}
+
+// swapNative builds a NEW native interpreter holding every registration made so far for the client and installs it with
+// SetInterpreter: to the specification nothing changes.
+func (r *Runner) swapNative(p Prim, side int, c string) *Resp {
 	return guarded(func() *Resp {
-		n := p.Native(e.C)
+		n := interpreter.NewNativeInterpreter()
+		for _, e := range r.regs[c] {
+			r.registerOn(n, side, e)
+		}
+		p.SetNative(c, n)
+		return NewResp()
+	})
+}
+
+func (r *Runner) registerOn(n *interpreter.Native, side int, e *Event) *Resp {
+	return guarded(func() *Resp {
 		text := string(intsToBytes(e.Text))
 		id := e.ID
 		switch e.Op {
@@ -392,6 +412,7 @@ func (r *Runner) Reset() {
 	r.fail = map[string]string{}
 	r.fired = [2]map[string]bool{{}, {}}
 	r.nativeSeen = false
+	r.regs = map[string][]*Event{}
 }
 
 // Step executes one operation on both back ends and returns the trace line.
@@ -401,6 +422,9 @@ func (r *Runner) Step(e *Event, observe bool) ([]byte, error) {
 	var r1, r2 *Resp
 	if e.Op == "AddMatcher" || e.Op == "AddUpdater" {
 		r1, r2 = r.register(r.P1, 0, e), r.register(r.P2, 1, e)
+	} else if e.Op == "NativeSwap" {
+		r.nativeSeen = true
+		r1, r2 = r.swapNative(r.P1, 0, e.C), r.swapNative(r.P2, 1, e.C)
 	} else {
 		r.fired[0], r.fired[1] = map[string]bool{}, map[string]bool{}
 		r1 = Exec(r.P1, e)
